@@ -126,6 +126,13 @@ def probe_after():
     return [T('|after:'), V('error_type', missing='-'), V('fa')]
 
 
+def probe_end():
+    """After every enclosing block: nothing of a handled error is bound."""
+    return [T('|end:'), V('error_type', missing='-'),
+            V('error_value', missing='-'), V('error_tb', missing='-'),
+            T('>')]
+
+
 def enum_except(cls, hsets, has_else, second, inner_wrap, outer_wrap):
     body = [V('fa')]
     if cls:
@@ -145,7 +152,7 @@ def enum_except(cls, hsets, has_else, second, inner_wrap, outer_wrap):
             els.append(RAISE('VfX', 'from-else'))
     t = dict(k='try', body=body, handlers=handlers,
              **{'else': els, 'finally': None})
-    return wrap(outer_wrap, [T('<'), t] + probe_after()) + [T('>')]
+    return wrap(outer_wrap, [T('<'), t] + probe_after()) + probe_end()
 
 
 def enum_finally(body_act, fin_act, inner_wrap, outer_wrap):
@@ -167,7 +174,7 @@ def enum_finally(body_act, fin_act, inner_wrap, outer_wrap):
              handlers=[], **{'else': None,
                              'finally': [dict(k='call', ref=dict(
                                  r='name', n='ft'))] + act(fin_act, 'fin')})
-    return wrap(outer_wrap, [T('<'), t, T('|after'), V('fa')]) + [T('>')]
+    return wrap(outer_wrap, [T('<'), t, T('|after'), V('fa')]) + probe_end()
 
 
 def enum_cases():
